@@ -23,11 +23,12 @@ GENOME = "ACGTACGGTCAATGCCGTAGCTAGCTAACG"
 
 def world_description(tier):
     w = WORLD[tier]
-    return f"exon layouts N={w['N']} k<={w['k']} disjoint; all CDS placements; all chunk windows containing the interval"
+    return (f"exon layouts N={w['N']} k<={w['k']} disjoint x strands + - . ; all CDS placements; all chunk windows containing the interval; "
+            f"scale family: records of {SCALE_KS[tier]} blocks, CDS placements on a ladder of block boundaries, 6 parent kinds, both modes")
 
 
 def shards(tier, seed):
-    return [{"tier": tier, "i": i} for i in range(NSH)]
+    return [{"tier": tier, "i": i} for i in range(NSH)] + [{"tier": tier, "part": "scale", "i": i} for i in range(8)]
 
 
 def parse_bed12(text):
@@ -46,7 +47,7 @@ def parse_bed12(text):
 
 def check_bed(res, kind, exons, strand, cds, window, chrom_mode, menu, N):
     """kind: 'tx' | 'feat'; cds: None or (c0,c1) transcript coords; window: None (no parent) | 'chrom' | (a,b)"""
-    genome = GENOME[:N]
+    genome = GENOME[:N] if N <= len(GENOME) else (GENOME * (N // len(GENOME) + 1))[:N]
     minus_chunk = isinstance(window, tuple) and len(window) == 3
     if window is None:
         parent = None
@@ -164,11 +165,39 @@ def check_bed(res, kind, exons, strand, cds, window, chrom_mode, menu, N):
         res.state(("bed", o[1]))
 
 
+SCALE_KS = {"quick": (4, 6, 11, 24), "thorough": (4, 5, 6, 8, 11, 16, 24, 33, 64)}
 MENUS = [("transcript_symbol", 0, (0, 0, 0)), ("transcript_id", 1000, (255, 0, 7)), ("free text", 5, (1, 2, 3))]
+
+
+def run_scale(res, shard):
+    """the scale family (vlib/worlds.py): records with many blocks; CDS placements on a ladder of block boundaries; no parent,
+    chromosome, containing chunks at an offset, both coordinate modes"""
+    tier = shard["tier"]
+    idx = 0
+    for k, exons in worlds.scale_layouts(tier, offset=3, ks=SCALE_KS[tier], npat=2 if tier == "quick" else 3):
+        N = exons[-1][1] + 3
+        lo, hi = exons[0][0], exons[-1][1]
+        bp = worlds.boundary_points(exons, around=0)
+        ln = bp[-1]
+        pts = sorted({0, bp[1], bp[len(bp) // 2] + 1, bp[-2], ln} & set(range(ln + 1)))
+        placements = [None] + [(c0, c1) for i_, c0 in enumerate(pts) for c1 in pts[i_ + 1:]]
+        for strand in "+-.":
+            idx += 1
+            if idx % 8 != shard["i"]:
+                continue
+            for win in (None, "chrom", (0, N), (lo, hi), (lo - 2, hi + 1), (lo - 1, N, "-")):
+                for chrom_mode in (True, False):
+                    check_bed(res, "feat", exons, strand, None, win, chrom_mode, MENUS[0], N)
+                    for cds in (placements if strand != "." else [None]):
+                        check_bed(res, "tx", exons, strand, cds, win, chrom_mode, MENUS[2], N)
+    res.sample({"scale": "many-block records", "ks": list(SCALE_KS[tier])})
+    return res
 
 
 def run_shard(shard):
     res = ShardResult()
+    if shard.get("part") == "scale":
+        return run_scale(res, shard)
     tier = shard["tier"]
     w = WORLD[tier]
     N = w["N"]
